@@ -166,8 +166,8 @@ Verdict_apdu(e) ==
 Verdict_u2f_encode(e) ==
     LET o  == e.obs
         bind == /\ o.ok = ret.ok
+                /\ o.kept = e.in.pre
                 /\ (ret.ok => o.buf = ret.buf)
-                /\ (~ret.ok => Len(o.buf) >= ret.keep /\ SubSeq(o.buf, 1, ret.keep) = SubSeq(ret.buf, 1, ret.keep))
     IN  [bind |-> bind, unspec |-> FALSE, violated |-> IF bind THEN {} ELSE Props(e)]
 
 Verdict_dispatch(e) ==
